@@ -102,8 +102,15 @@ func scenConvert(rep *Report, tier string, seed int64) {
 				What: "conversions.Convert differs from the model", Extra: map[string]interface{}{"pip10": pip, "height": h, "amount": amt, "fromRate": fr, "fromAvg": fa, "toRate": tr, "toAvg": ta, "impl": impl, "model": model}})
 			rep.Disagree("convert", fmt.Sprintf("Convert(%d,%d,%d,%d,%d,%d) pip10=%d: impl=%s model=%s", h, amt, fr, fa, tr, ta, pip, impl, model), path)
 		}
-		// monitor (spec evaluated on the implementation's answer): floor of amt*src/dst, value non-increasing
-		if gerr == nil {
+		// monitor (spec evaluated on the implementation's answer): the guards, then floor of amt*src/dst
+		mustFail := amt < 0 || fr == 0 || tr == 0 || (h >= pip && (fa == 0 || ta == 0))
+		if mustFail && gerr == nil {
+			path := WriteReplay(rep.Property, "convert-spec", Replay{Property: rep.Property, Scenario: "convert", Seed: seed,
+				What: "Convert accepted an input its guards must reject (negative amount, zero rate, or zero average under PIP-10)",
+				Extra: map[string]interface{}{"pip10": pip, "height": h, "amount": amt, "fromRate": fr, "fromAvg": fa, "toRate": tr, "toAvg": ta, "result": got}})
+			rep.Violate("convert:guard", fmt.Sprintf("Convert(%d,%d,%d,%d,%d,%d) pip10=%d = %d, must be rejected", h, amt, fr, fa, tr, ta, pip, got), path)
+		}
+		if gerr == nil && !mustFail {
 			src, dst := fr, tr
 			if h >= pip {
 				if fa < src {
